@@ -54,18 +54,29 @@ def IsFindLast (cs : CaseMode) (hay : List Nat) (max : Nat) (needle : List Nat) 
       ∀ j, i < j → j + needle.length ≤ max → ¬ occursAt cs hay needle j)
   ∨ (r = -1 ∧ (needle = [] ∨ ∀ j, j + needle.length ≤ max → ¬ occursAt cs hay needle j))
 
-/-- executable form of `IsFind` for the driver: scan candidate indices upward -/
+/-- bounded search for the least `i` in `[i, i + fuel)` with `p i` (generic; used to evaluate the
+    two predicates above in the driver; `Lemmas/Search` proves it returns exactly the least one) -/
+def leastFrom (p : Nat → Bool) : (fuel : Nat) → (i : Nat) → Option Nat
+  | 0, _ => none
+  | fuel + 1, i => if p i then some i else leastFrom p fuel (i + 1)
+
+/-- bounded search for the greatest `i < n` with `p i` -/
+def greatestBelow (p : Nat → Bool) : (n : Nat) → Option Nat
+  | 0 => none
+  | n + 1 => if p n then some n else greatestBelow p n
+
+/-- executable form of `IsFind` (theorems `findRef_isFind`, `isFind_unique`): the value the driver
+    judges the implementation's own answer against -/
 def findRef (cs : CaseMode) (hay : List Nat) (start : Nat) (needle : List Nat) : Int :=
   if needle = [] ∨ hay.length ≤ start then -1
-  else match (List.range (hay.length + 1)).find? (fun i => start ≤ i ∧ occursAt cs hay needle i) with
+  else match leastFrom (fun i => decide (occursAt cs hay needle i)) (hay.length + 1 - start) start with
     | some i => (i : Nat)
     | none => -1
 
-/-- executable form of `IsFindLast` for the driver: scan candidate indices downward -/
+/-- executable form of `IsFindLast` (theorems `findLastRef_isFindLast`, `isFindLast_unique`) -/
 def findLastRef (cs : CaseMode) (hay : List Nat) (max : Nat) (needle : List Nat) : Int :=
   if needle = [] then -1
-  else match (List.range (hay.length + 1)).reverse.find?
-      (fun i => i + needle.length ≤ max ∧ occursAt cs hay needle i) with
+  else match greatestBelow (fun i => decide (i + needle.length ≤ max ∧ occursAt cs hay needle i)) (hay.length + 1) with
     | some i => (i : Nat)
     | none => -1
 
